@@ -152,6 +152,8 @@ def run_wrapper(case):
         def on_receive_find(self, context, ds):
             seen['pid'] = str(ds.PatientID)
             seen['query'] = dsutils.encode(ds, True, True)
+            seen.setdefault('all', []).append(seen['query'])
+            ds.PatientID = 'EDITED-BY-HANDLER'          # an application may do what it likes with the query it was handed
 
             def gen():
                 for j in range(n):
@@ -175,6 +177,10 @@ def run_wrapper(case):
             box['q'] = q
             box['got'] = [(None if d is None else (str(d.PatientID), str(d.PatientName)), int(st))
                           for d, st in pynetdicom2.c_find({'aet': 'SRV', 'address': '127.0.0.1', 'port': port}, 'WRAPPER', q)]
+            if n <= 5:
+                # the same query once more, on a new association: the handler must be handed the query again, untouched
+                box['again'] = [(None if d is None else (str(d.PatientID), str(d.PatientName)), int(st))
+                                for d, st in pynetdicom2.c_find({'aet': 'SRV', 'address': '127.0.0.1', 'port': port}, 'WRAPPER', q)]
         except BaseException as e:  # pylint: disable=broad-except
             box['exc'] = e
     with srv:
@@ -188,6 +194,11 @@ def run_wrapper(case):
     want = [(('W%d' % j, 'N' * (j * 37 % 90)), 0xFF00 if j % 2 == 0 else 0xFF01) for j in range(n)] + [(None, 0)]
     if box.get('got') != want:
         return 'c_find() yielded %r, the handler produced %d matches then the final response' % (box.get('got'), n)
+    if 'again' in box and box['again'] != want:
+        return 'the same query asked a second time yielded %r' % (box['again'],)
+    if any(x != box['query_before'] for x in seen.get('all', [])):
+        return ('the same query was asked %d times; the handler was handed %r' %
+                (len(seen['all']), ['the query' if x == box['query_before'] else 'something else (%d bytes)' % len(x) for x in seen['all']]))
     if seen.get('pid') != 'QUERY%d' % n:
         return 'the query did not reach the handler (%r)' % (seen.get('pid'),)
     if seen.get('query') != box['query_before']:
